@@ -31,7 +31,9 @@ func init() {
 			"(force-only-hard) Checkout selects HardReset only under opts.Force; (keep-conflict-rules) checkKeepResetConflicts refuses tracked paths with staged or unstaged changes among the touched paths and untracked files at every path " +
 			"the target writes (added or modified), not only at added paths; (untracked-preserved) resetWorktreeToTree skips Delete actions of the index-vs-worktree diff (untracked files). " +
 			"(untracked-overwrite-refused) under Mode == MergeReset (which non-forced checkout uses) and under Mode == KeepReset, resetRefusals reaches success only across the success edge of a function that walks Worktree.Status and returns a refusal " +
-			"sentinel in a loop that tests the Untracked status code (mode-infeasible edges are pruned from the search). Not decided: that the predicates detect every overwritten modification.",
+			"sentinel in a loop that tests the Untracked status code (mode-infeasible edges are pruned from the search); (staged-changes-refused) the same search for a status loop that tests .Staging against Unmodified: keep mode holds, merge mode " +
+			"is a recorded known finding (staged-only changes are discarded); (keep-preserves-unrelated-edits) under the scenario 'keep parameter true, action == Modify' the file-writing call of resetWorktreeToTree is reachable only across the ok " +
+			"edge of a lookup in the set of paths that differ between the two trees. Not decided: that the predicates detect every overwritten modification; locally deleted files under keep.",
 		Assumptions: []string{"Worktree.Status reports local modifications correctly (C27)"},
 		Run:         runC30,
 	})
@@ -630,6 +632,75 @@ func runC30(c *Ctx) {
 			return true
 		})
 		c.Check(found, r4, rw.Name()+":skips-delete", rw.Decl.Pos(), "files present in the worktree but not in the new index (untracked) are skipped, not deleted")
+
+		// keep-preserves-unrelated-edits: in keep mode an existing file whose content differs from the index (a local
+		// edit) is rewritten only when its path is in the set of paths that differ between the two trees. Scenario
+		// evaluation: assume the boolean parameter (keep) true and the action equal to merkletrie.Modify; the file-writing
+		// call must then be reachable only across the `ok` edge of a lookup in a local set.
+		const r4k = "keep-preserves-unrelated-edits"
+		var keepParam, modifyObj types.Object
+		for _, pv := range paramObjs(info, rw.Decl) {
+			if isBoolType(pv.Type()) {
+				keepParam = pv
+			}
+		}
+		if mt != nil {
+			modifyObj = mt.Scope().Lookup("Modify")
+		}
+		// the action variables: assigned from <change>.Action()
+		actionVars := map[types.Object]bool{}
+		ast.Inspect(rw.Decl.Body, func(x ast.Node) bool {
+			as, ok := x.(*ast.AssignStmt)
+			if !ok || len(as.Rhs) != 1 || len(as.Lhs) != 2 {
+				return true
+			}
+			if call, ok := unparen(as.Rhs[0]).(*ast.CallExpr); ok {
+				if sel, ok := unparen(call.Fun).(*ast.SelectorExpr); ok && sel.Sel.Name == "Action" {
+					if o := objOf(info, as.Lhs[0]); o != nil {
+						actionVars[o] = true
+					}
+				}
+			}
+			return true
+		})
+		writeFn := p.Func("git.(*Worktree).checkoutChange")
+		if keepParam == nil || modifyObj == nil || writeFn == nil || len(actionVars) == 0 {
+			c.Violate(r4k, rw.Name(), rw.Decl.Pos(), "resetWorktreeToTree has no boolean 'keep' parameter (or the action / write call was not found): in keep mode it rewrites every file that differs from the index, local edits to files the reset does not touch included")
+		} else {
+			ca := &condAssume{info: info, bval: map[types.Object]bool{keepParam: true}, eq: map[types.Object]types.Object{}}
+			for o := range actionVars {
+				ca.eq[o] = modifyObj
+			}
+			f := p.FlowOf(rw)
+			prune := ca.blockEdge()
+			inSet := func(b *cfg.Block, i int) bool {
+				for _, fact := range f.EdgeFacts(b, i) {
+					o := objOf(info, fact.Atom)
+					if o == nil || !fact.Truth {
+						continue
+					}
+					for _, n := range b.Nodes {
+						as, ok := n.(*ast.AssignStmt)
+						if !ok || len(as.Lhs) != 2 || len(as.Rhs) != 1 || objOf(info, as.Lhs[1]) != o {
+							continue
+						}
+						if ix, ok := unparen(as.Rhs[0]).(*ast.IndexExpr); ok {
+							if tv := info.Types[ix.X]; tv.Type != nil {
+								if _, isMap := tv.Type.Underlying().(*types.Map); isMap {
+									return true
+								}
+							}
+						}
+					}
+				}
+				return false
+			}
+			h := f.Search(SearchOpts{Starts: []Loc{f.Entry()},
+				Sink:      func(n ast.Node) bool { return nodeHasCall(n, false, func(call *ast.CallExpr) bool { return Callee(info, call) == writeFn.Obj }) != nil },
+				BlockEdge: func(b *cfg.Block, i int) bool { return prune(b, i) || inSet(b, i) }})
+			c.Check(h == nil, r4k, rw.Name(), rw.Decl.Pos(), orStr(ifStr(h != nil, "in keep mode a file that exists with other content can be rewritten without its path being among the paths the switch changes: local edits to unrelated files are discarded"+hitLines(f, h)),
+				"in keep mode an existing file is rewritten only when its path is in the set of paths that differ between the two trees"))
+		}
 	}
 
 	// untracked-overwrite-refused: both non-forced modes reach, before resetRefusals can succeed, a successful call of a
